@@ -232,15 +232,53 @@ impl Report {
         let replay_dir = format!("{dir}/out/replays/{}", self.prop);
         let _ = std::fs::remove_dir_all(&replay_dir);
         let mut n = 0;
-        for (sig, (count, v)) in viols.iter() {
-            // must reproduce
+        // rerun mode (child of a parent check that met violations which do not reproduce in isolation):
+        // print every signature and stop
+        if std::env::var_os("MC_RERUN").is_some() {
+            for (sig, (count, _)) in viols.iter() {
+                println!("SIG\t{}\t{}\t{}\t{}\t{}", sig.0, sig.1, sig.2, sig.3, count);
+            }
+            return 0;
+        }
+        // first pass: which violations reproduce when their case is re-executed in isolation?
+        let mut isolated_ok: std::collections::BTreeSet<Sig> = Default::default();
+        let mut not_isolated: Vec<(Sig, String)> = vec![];
+        for (sig, (_, v)) in viols.iter() {
             let again = replay(&v.case);
-            if !again.iter().any(|x| &x.sig() == sig) {
+            if again.iter().any(|x| &x.sig() == sig) {
+                isolated_ok.insert(sig.clone());
+            } else {
+                not_isolated.push((sig.clone(), format!("{:?}", again.iter().map(|x| x.sig()).collect::<Vec<_>>())));
+            }
+        }
+        // those that do not may depend on what the process did before (state surviving between calls or
+        // instances): re-run the whole check in a fresh process and require the same signature again
+        let mut rerun_ok: std::collections::BTreeSet<Sig> = Default::default();
+        if !not_isolated.is_empty() {
+            let rerun_dir = format!("{dir}/out/rerun_{}", self.prop);
+            let _ = std::fs::create_dir_all(&rerun_dir);
+            let out = std::process::Command::new(std::env::current_exe().expect("current_exe"))
+                .args(["check", &self.prop, "--tier", &self.tier])
+                .env("MC_RERUN", "1")
+                .env("VERIF_DIR", &rerun_dir)
+                .output();
+            if let Ok(out) = out {
+                for line in String::from_utf8_lossy(&out.stdout).lines() {
+                    let f: Vec<&str> = line.split('\t').collect();
+                    if f.len() >= 5 && f[0] == "SIG" {
+                        rerun_ok.insert((f[1].to_string(), f[2].to_string(), f[3].to_string(), f[4].to_string()));
+                    }
+                }
+            }
+            let _ = std::fs::remove_dir_all(&rerun_dir);
+        }
+        for (sig, (count, v)) in viols.iter() {
+            let history_dependent = !isolated_ok.contains(sig);
+            if history_dependent && !rerun_ok.contains(sig) {
+                let second = not_isolated.iter().find(|x| &x.0 == sig).map(|x| x.1.clone()).unwrap_or_default();
                 self.machinery_error(format!(
-                    "violation did not reproduce on re-execution: sig={sig:?} detail={} case={} second run gave {:?}",
-                    v.detail,
-                    v.case,
-                    again.iter().map(|x| x.sig()).collect::<Vec<_>>()
+                    "violation reproduced neither in isolation nor in a second full run: sig={sig:?} detail={} case={} isolated re-execution gave {second}",
+                    v.detail, v.case
                 ));
                 continue;
             }
@@ -253,13 +291,25 @@ impl Report {
             n += 1;
             let _ = std::fs::create_dir_all(&replay_dir);
             let path = format!("{replay_dir}/{n:03}.json");
-            let doc = json!({
-                "property": self.prop,
-                "signature": {"stage": sig.0, "class": sig.1, "site": sig.2, "trigger": sig.3},
-                "cases_with_this_signature": count,
-                "detail": v.detail,
-                "case": v.case,
-            });
+            let doc = if history_dependent {
+                json!({
+                    "property": self.prop,
+                    "signature": {"stage": sig.0, "class": sig.1, "site": sig.2, "trigger": sig.3},
+                    "cases_with_this_signature": count,
+                    "detail": v.detail,
+                    "history_dependent": "the case below does not fail when executed alone in a fresh process; the same signature was reported again by a second complete run of this check in a fresh process, so the failure depends on what the process did earlier (state surviving between calls / instances). The replay therefore re-runs the check and looks for the signature.",
+                    "first_failing_case_seen": v.case,
+                    "case": {"kind": "rerun_check", "property": self.prop, "tier": self.tier, "signature": [sig.0, sig.1, sig.2, sig.3]},
+                })
+            } else {
+                json!({
+                    "property": self.prop,
+                    "signature": {"stage": sig.0, "class": sig.1, "site": sig.2, "trigger": sig.3},
+                    "cases_with_this_signature": count,
+                    "detail": v.detail,
+                    "case": v.case,
+                })
+            };
             std::fs::write(&path, serde_json::to_string_pretty(&doc).unwrap()).expect("write replay");
             lines.push(format!("VIOLATION property={} replay={}", self.prop, path));
             eprintln!("  [{}] {} / {} / {} / {} x{} : {}", self.prop, sig.0, sig.1, sig.2, sig.3, count, truncate(&v.detail, 700));
